@@ -86,6 +86,14 @@ pub fn check_kind(t: &Trace<'_>, m: &Model, out: &mut CaseOut, prop: &'static st
             break;
         }
     }
+    // (c0') poll / recv / drive take no request that could be invalid: "invalid request" from one
+    // of them while packets are owed means that an owed packet was refused for what it is
+    for (i, op) in t.log.ops.iter().enumerate() {
+        if matches!(op.kind, "poll" | "recv" | "drive") && op.outcome == crate::exec::Outcome::Err(crate::exec::ErrRepr::InvalidRequest) && op.snap_before.as_ref().is_some_and(|b| !b.tx.retained.is_empty()) {
+            out.violations.push(viol(prop, format!("{}/replay-refused-without-cause", prop), format!("op#{} {} on conn {:?} returned InvalidRequest while retained packets {:?} were owed", i, op.kind, op.conn, op.snap_before.as_ref().map(|b| b.tx.retained.iter().map(|e| e.packet_id).collect::<Vec<_>>()))));
+            break;
+        }
+    }
     // (c) every resumed, drained connection carries each outstanding message exactly once
     for ci in t.conns.iter().filter(|c| c.established && c.connack.as_ref().is_some_and(|k| k.0)) {
         let Some(e_d) = drained_at(t, ci.idx) else { continue };
